@@ -42,7 +42,7 @@ PROPS = {
 }
 PROBES = {'C14': ['target_without_source_in_range', 'rebind_other_size', 'set_points_after_rebind', 'ill_conditioned_skipped',
                   'property_missing_in_some_array', 'interpolate_after_other_property', 'h_increased_then_update', 'periodic_domain',
-                  'order1_repeated', 'order1_3d', 'auto_grid', 'gradient_component']}
+                  'order1_repeated', 'order1_3d', 'auto_grid', 'gradient_component', 'integer_typed_targets']}
 
 
 def prepare(prop, tier):
@@ -125,6 +125,9 @@ def gen(t, prop, tier):
     def make_targets():
         if t.bool(0.2):
             return None
+        if t.bool(0.15):
+            # integer-typed coordinates (e.g. from np.arange), marked by a leading 'int'
+            return ['int'] + [[float(t.int(0, int(max(1, L)))) if k < dim else 0.0 for k in range(3)] for _ in range(t.int(1, 6))]
         tg = []
         for _ in range(t.int(1, 14)):
             far = t.bool(0.1)
@@ -239,6 +242,16 @@ def execute(sc, prop):
     def tgt(tl):
         if tl is None:
             return None
+        if tl and tl[0] == 'int':
+            try:
+                a = np.array([[int(v) for v in r[:3]] for r in tl[1:]], dtype=np.int64).reshape(len(tl) - 1, 3)
+            except Exception:
+                raise InvalidScenario('targets')
+            if len(a) == 0:
+                raise InvalidScenario('targets')
+            a[:, dim:] = 0
+            probe('integer_typed_targets')
+            return a
         try:
             a = np.array([[float(v) for v in r[:3]] for r in tl], dtype=float).reshape(len(tl), 3)
         except Exception:
